@@ -277,6 +277,16 @@ impl Engine {
         let log_after = self.ex.disk.log_len();
         self.apply(&op, &res, vi, &pre);
         if self.aborted {
+            // a violation of ANOTHER property ends the history, but this property's medium
+            // monitors still get to see the call that exposed it
+            let foreign = self.viol.last().map(|v| v.prop != self.flags.prop).unwrap_or(false);
+            if foreign && log_after > log_before {
+                let n = self.viol.len();
+                self.aborted = false;
+                monitors::post_op(self, &op, &res, vi, &pre, log_before, log_after);
+                self.aborted = true;
+                let _ = n;
+            }
             return;
         }
         // a refused call changes nothing on the medium
@@ -324,6 +334,18 @@ impl Engine {
                     return;
                 }
             }
+        }
+    }
+
+    /// Capacity verdicts belong to C05. Other checks adopt the observed outcome and go on, so
+    /// that their own monitors keep seeing what happens next.
+    fn space_violation(&mut self, rule: &str, detail: &str, msg: String) -> bool {
+        if self.flags.prop == "C05" {
+            self.violate("C05", rule, detail, msg);
+            true
+        } else {
+            self.count("capacity_mismatch_adopted");
+            false
         }
     }
 
@@ -575,8 +597,10 @@ impl Engine {
                 let space_mismatch = (exp.ok && res.err().map(is_space_error).unwrap_or(false)) || (!exp.ok && exp.errs.contains(&Ek::DiskFull) && res.is_ok());
                 if space_mismatch {
                     let free = vi.map(|v| self.vs[v].free).unwrap_or(0);
-                    self.violate("C05", space_rule.unwrap_or("C05.capacity-short"), "make_dir_in_dir", format!("result {} with {} free clusters", res.short(), free));
-                    return;
+                    if self.space_violation(space_rule.unwrap_or("C05.capacity-short"), "make_dir_in_dir", format!("result {} with {} free clusters", res.short(), free)) {
+                        return;
+                    }
+                    exp = if res.is_ok() { Expect::ok() } else { Expect { ok: false, errs: vec![Ek::NotEnoughSpace, Ek::DiskFull] } };
                 }
                 if let Some(true) = self.check("C07", "C07.result", &format!("mkdir {}", monitors::name_class(name)), res, &exp) {
                     let id = self.m.new_dir(hd.vol, hd.node, key.unwrap());
@@ -905,13 +929,16 @@ impl Engine {
         let cls = monitors::target_class(&self.m, target, name);
         let detail = format!("{} on {}", Op::mode_name(mode), cls);
         // space verdicts belong to C05
+        let mut exp = exp;
         if exp.ok && exp.errs.is_empty() && res.err().map(is_space_error).unwrap_or(false) {
-            self.violate("C05", "C05.capacity-short", "create entry", format!("creating an entry failed with {} although a slot or a free cluster exists", res.short()));
+            self.space_violation("C05.capacity-short", "create entry", format!("creating an entry failed with {} although a slot or a free cluster exists", res.short()));
             return;
         }
         if !exp.ok && exp.errs.contains(&Ek::DiskFull) && exp.errs.len() == 2 && res.is_ok() {
-            self.violate("C05", "C05.capacity-over", "create entry", "entry created although the directory is full and cannot grow".to_string());
-            return;
+            if self.space_violation("C05.capacity-over", "create entry", "entry created although the directory is full and cannot grow".to_string()) {
+                return;
+            }
+            exp = Expect::ok();
         }
         let (prop, rule) = if exp.errs == vec![Ek::TooManyOpenFiles] || (exp.ok && res.err() == Some(Ek::TooManyOpenFiles)) { ("C08", "C08.limit") } else { ("C07", "C07.result") };
         let Some(true) = self.check(prop, rule, &detail, res, &exp) else { return };
@@ -1006,20 +1033,17 @@ impl Engine {
                     self.violate("C01", "C01.off", "write advanced wrongly", format!("write of {} bytes reported {} and advanced the offset by {}", len, n, accepted));
                     return;
                 }
-                if need > free {
-                    self.violate("C05", "C05.capacity-over", "write", format!("write needing {} new clusters succeeded with {} free", need, free));
+                if need > free && self.space_violation("C05.capacity-over", "write", format!("write needing {} new clusters succeeded with {} free", need, free)) {
                     return;
                 }
             }
             OpRes::Err(k) if is_space_error(*k) => {
-                if need <= free {
-                    self.violate("C05", "C05.capacity-short", "write", format!("write needing {} new clusters failed with {:?} although {} clusters are free", need, k, free));
+                if need <= free && self.space_violation("C05.capacity-short", "write", format!("write needing {} new clusters failed with {:?} although {} clusters are free", need, k, free)) {
                     return;
                 }
                 let room = ((chainlen + free) * cb) as i64 - hf.off as i64;
                 let should = room.max(0).min(len as i64);
-                if accepted != should {
-                    self.violate("C05", if accepted < should { "C05.capacity-short" } else { "C05.capacity-over" }, "partial write", format!("out-of-space write accepted {} bytes, the {} free clusters hold {}", accepted, free, should));
+                if need > free && accepted != should && self.space_violation(if accepted < should { "C05.capacity-short" } else { "C05.capacity-over" }, "partial write", format!("out-of-space write accepted {} bytes, the {} free clusters hold {}", accepted, free, should)) {
                     return;
                 }
                 if self.flags.space && *k != Ek::DiskFull && *k != Ek::NotEnoughSpace {
